@@ -1,19 +1,27 @@
 """C10 — high-level graph culling and blockwise fusion are sound."""
 PROPERTY = "C10"
 META = {
-    "category": "other",
-    "technique": "bounded stand-in: run-time postconditions on the real _fuse_annotations / HighLevelGraph.cull / Blockwise.cull / optimize_blockwise over an enumerated annotation universe and a fixed family of blockwise layer stacks",
-    "text": "BOUNDED, not proved: (a) _fuse_annotations against the documented rules for all pairs (and triples of a subset) of 20 annotation dicts including falsy values; (b) for 6 stacks of blockwise layers (elementwise, transpose, broadcasting, new axes, contraction, concatenate) and several output-key subsets: culling keeps every needed key and the values, culling an already culled graph again does too, Blockwise.cull's dependencies equal those of the materialised tasks, optimize_blockwise leaves values unchanged (NumPy comparison).",
-    "note": "No deductive proof (level other): blockwise index-string algebra and NumPy block functions are outside the VC generator; _fuse_annotations uses filtered comprehensions over heterogeneous dicts and toolz.merge_with (not brought under contract).",
+    "category": "proof",
+    "technique": "contract-based deductive verification of _fuse_annotations (annotation dicts as records of optional keys, filtered comprehensions as index bijections, assumed models of toolz.merge/merge_with and set.intersection), z3; bounded stand-in (run-time postconditions) for HighLevelGraph.cull / Blockwise.cull / optimize_blockwise over a fixed family of blockwise layer stacks",
+    "text": "PROVED for every list of annotation dicts: fused retries and priority are the maximum over the layers that set them, resources the per-resource maximum, workers exactly the intersection, allow_other_workers the conjunction, and a key no layer sets stays unset (so no constraint is ever loosened). BOUNDED, not proved: (a) the same function run natively against the documented rules for all pairs (and triples of a subset) of 20 annotation dicts including falsy values; (b) for 6 stacks of blockwise layers (elementwise, transpose, broadcasting, new axes, contraction, concatenate) and several output-key subsets: culling keeps every needed key and the values, culling an already culled graph again does too, Blockwise.cull's dependencies equal those of the materialised tasks, optimize_blockwise leaves values unchanged (NumPy comparison).",
+    "note": "Trusted: VC generator, z3; ASSUMED models of toolz.merge (key present iff present in some input, value from an input), toolz.merge_with(max, ...) (per-key maximum) and set.intersection. Culling and fusion of blockwise layers are NOT proved: blockwise index-string algebra and NumPy block functions are outside the VC generator (bounded native runs only).",
     "design_ref": "DESIGN.md §5.5",
 }
-MODULES = []
-LEVEL = "other"
-EXPLANATION = "bounded run-time contract checks only; no obligations generated"
-TRUSTED = ["reference implementation of the documented annotation rules", "NumPy as value oracle"]
+MODULES = ["contracts.annotations"]
+LEVEL = "proof"
+EXPLANATION = "annotation-fusion clause proved for all inputs; culling/fusion soundness by bounded run-time contract checks"
+TRUSTED = ["VC generator /verif/vf", "z3", "assumed models: toolz.merge, toolz.merge_with(max), set.intersection", "reference implementation of the documented annotation rules (native)", "NumPy as value oracle (native)"]
 ASSUMPTIONS = ["bounded universe of annotations and layer stacks"]
 
 
 def native(tier, seed):
     from vf import hlg_native
     return [hlg_native.annotations_sweep(tier, seed), hlg_native.cull_sweep(tier, seed)]
+
+
+NATIVE_COVERS = {"_fuse_annotations": ["_fuse_annotations"]}
+
+# thorough tier: deliberate edits that must turn an obligation red (applied to a scratch copy, never to /repo)
+MUTATIONS = [('contracts.annotations', '_fuse_annotations', 'dask/blockwise.py', '        annotations["retries"] = max(retries)', '        annotations["retries"] = retries[-1]'),
+             ('contracts.annotations', '_fuse_annotations', 'dask/blockwise.py', '        annotations["allow_other_workers"] = all(allow_other_workers)', '        annotations["allow_other_workers"] = any(allow_other_workers)'),
+             ('contracts.annotations', '_fuse_annotations', 'dask/blockwise.py', '    workers = [a["workers"] for a in args if "workers" in a]', '    workers = [a["workers"] for a in args if a.get("workers")]')]
